@@ -117,15 +117,20 @@ def get_value_source(
     if param in provided_values:
         return (ValueSource.PROVIDED, provided_values[param])
 
-    # 3. Bound value (from graph.bind()) - check both graph and GraphNode
-    if param in graph.inputs.bound:
-        return (ValueSource.BOUND, graph.inputs.bound[param])
+    # 3. Bound value (from graph.bind()): a binding made on this graph wins
+    if param in graph._bound:
+        return (ValueSource.BOUND, graph._bound[param])
 
-    # 3b. For GraphNode: check if inner graph has it bound
+    # 3b. For GraphNode: the binding of its own inner graph comes next (two
+    # nested graphs may bind the same name to different values)
     if isinstance(node, GraphNode):
         original_param = node._resolve_original_input_name(param)
         if original_param in node._graph.inputs.bound:
             return (ValueSource.BOUND, node._graph.inputs.bound[original_param])
+
+    # 3c. Bindings surfaced from nested graphs (merged, first one wins)
+    if param in graph.inputs.bound:
+        return (ValueSource.BOUND, graph.inputs.bound[param])
 
     # 4. Function default (from signature)
     if node.has_signature_default_for(param):
